@@ -54,6 +54,10 @@
 #include "upipe-ts/upipe_ts_pes_decaps.h"
 #include "upipe-ts/upipe_ts_psi_merge.h"
 #include "upipe-ts/upipe_ts_pid_filter.h"
+#include "upipe-ts/upipe_ts_psi_split.h"
+#include "upipe-ts/upipe_ts_psi_join.h"
+#include "upipe-ts/uref_ts_flow.h"
+#include "upipe/upipe_helper_upipe.h"
 #include "upipe-framers/upipe_h264_framer.h"
 #include "upipe-framers/upipe_h265_framer.h"
 
@@ -1626,9 +1630,181 @@ static void c14_cutting_case(struct vh_rng *r)
     vh_nontrivial(vh_hash_mix(opt, n));
 }
 
+/* ------------------------------------------------------------------ */
+/* sub-pipe topologies of the TS section splitter and joiner (C04 life cycle */
+/* of super- and sub-pipes, C01 ownership, routing / exactly-once)          */
+/* ------------------------------------------------------------------ */
+#define SP_MAXSUB 4
+static void subpipe_case(struct vh_rng *r)
+{
+    R = r;
+    memset(&S, 0, sizeof(S));
+    lab_nev = 0; lab_log_overflow = false; lab_inputs_reset(); in_reset(); pooltrack_reset(); lab_nprobes = 0; lab_probe_hook = NULL;
+    src_pump = NULL;
+    lab_env_init(vh_chance(R, 1, 2) ? 0 : 1 + vh_below(R, 3));
+    bool join = vh_chance(R, 1, 2);
+    const char *name = join ? "ts_psi_join" : "ts_psi_split";
+    vh_count_dyn("pipe.%s", name);
+    struct upipe *sinks[4]; int sink_ids[4]; bool sink_accept[4]; int sink_user[4];   /* -1 free, 100 super, k sub */
+    for (int k = 0; k < 4; k++) { char nm[16]; snprintf(nm, sizeof(nm), "sink%d", k); sinks[k] = lab_sink_new(nm, &sink_ids[k]); sink_accept[k] = true; sink_user[k] = -1; }
+    struct upipe_mgr *mgr = join ? upipe_ts_psi_join_mgr_alloc() : upipe_ts_psi_split_mgr_alloc();
+    int super_id;
+    struct upipe *super;
+    struct uref *fd = make_flow_def("block.mpegtspsi.", 1);
+    if (join) super = upipe_flow_alloc(mgr, lab_probe_new(name, &super_id), fd);
+    else super = upipe_void_alloc(mgr, lab_probe_new(name, &super_id));
+    upipe_mgr_release(mgr);
+    if (!super) vh_violation("c04:alloc-failed", "allocation of %s failed", name);
+    bool super_flow = join;
+    if (!join && vh_chance(R, 4, 5)) { OP("super.set_flow_def"); if (!ubase_check(upipe_set_flow_def(super, fd))) vh_violation("c04:ts_psi_split:rejected-own-flow-def", "rejected"); super_flow = true; }
+    uref_free(fd);
+    struct upipe *subs[SP_MAXSUB] = { NULL }; int sub_ids[SP_MAXSUB]; bool sub_flow[SP_MAXSUB] = { false };
+    uint8_t filt[SP_MAXSUB][4], mask[SP_MAXSUB][4]; int fsize[SP_MAXSUB] = { 0 }; int sub_out[SP_MAXSUB];
+    for (int k = 0; k < SP_MAXSUB; k++) sub_out[k] = -1;
+    int super_out = -1;
+    uint64_t seq = 0, expected[8] = { 0 };   /* per sink: deliveries owed */
+    int nops = 10 + vh_below(R, 30);
+    for (int i = 0; i < nops; i++) {
+        int c = vh_below(R, 100);
+        if (c < 18) {                                           /* allocate a sub-pipe */
+            int k = vh_below(R, SP_MAXSUB);
+            if (subs[k] || !super) continue;
+            if (join) {
+                OP("sub%d=void_alloc_sub", k);
+                subs[k] = upipe_void_alloc_sub(super, lab_probe_new("psi_join_sub", &sub_ids[k]));
+            } else {
+                struct uref *sfd = make_flow_def("block.mpegtspsi.", 2 + k);
+                fsize[k] = 1 + vh_below(R, 4);
+                for (int b = 0; b < fsize[k]; b++) { mask[k][b] = vh_chance(R, 1, 3) ? 0xff : (uint8_t)vh_rand(R); filt[k][b] = (uint8_t)(vh_below(R, 4) & mask[k][b]); }
+                uref_ts_flow_set_psi_filter(sfd, filt[k], mask[k], (size_t)fsize[k]);
+                OP("sub%d=flow_alloc_sub(filter %d octets)", k, fsize[k]);
+                subs[k] = upipe_flow_alloc_sub(super, lab_probe_new("psi_split_sub", &sub_ids[k]), sfd);
+                uref_free(sfd);
+                sub_flow[k] = true;
+            }
+            if (!subs[k]) vh_violation("c04:sub-alloc-failed", "sub-pipe allocation failed");
+            lab_ev(EV_DRIVER, D_SUB_ALLOC, k, 0, 0, NULL, "");
+            VH_COUNT("op.sub_alloc");
+        } else if (c < 30) {                                    /* plumbing */
+            int idx = vh_chance(R, 1, 6) ? -1 : (int)vh_below(R, 4);
+            if (join) {
+                if (!super) continue;
+                if (idx >= 0 && sink_user[idx] != -1 && sink_user[idx] != 100) continue;
+                OP("super.set_output(%d)", idx);
+                lab_ev(EV_DRIVER, D_SET_OUTPUT, idx >= 0 ? sink_ids[idx] : -1, super_id, 0, NULL, "");
+                upipe_set_output(super, idx >= 0 ? sinks[idx] : NULL);
+                if (super_out >= 0) sink_user[super_out] = -1;
+                super_out = idx; if (idx >= 0) sink_user[idx] = 100;
+            } else {
+                int k = vh_below(R, SP_MAXSUB);
+                if (!subs[k]) continue;
+                if (idx >= 0 && sink_user[idx] != -1 && sink_user[idx] != k) continue;
+                OP("sub%d.set_output(%d)", k, idx);
+                lab_ev(EV_DRIVER, D_SUB_SET_OUTPUT, idx >= 0 ? sink_ids[idx] : -1, sub_ids[k], 0, NULL, "");
+                upipe_set_output(subs[k], idx >= 0 ? sinks[idx] : NULL);
+                if (sub_out[k] >= 0) sink_user[sub_out[k]] = -1;
+                sub_out[k] = idx; if (idx >= 0) sink_user[idx] = k;
+            }
+            VH_COUNT("op.set_output");
+        } else if (c < 38 && join) {                            /* flow definition of an input of the joiner */
+            int k = vh_below(R, SP_MAXSUB);
+            if (!subs[k]) continue;
+            bool bad = vh_chance(R, 1, 6);
+            struct uref *sfd = make_flow_def(bad ? "pic." : "block.mpegtspsi.", 1 + vh_below(R, 3));
+            OP("sub%d.set_flow_def(%s)", k, bad ? "pic." : "psi");
+            int err = upipe_set_flow_def(subs[k], sfd);
+            uref_free(sfd);
+            if (bad && ubase_check(err)) vh_violation("c04:ts_psi_join:accepted-foreign-flow-def", "an input of the joiner accepted pic.");
+            if (!bad && !ubase_check(err)) vh_violation("c04:ts_psi_join:rejected-own-flow-def", "an input of the joiner rejected its flow definition (%d)", err);
+            if (!bad) sub_flow[k] = true;
+            VH_COUNT("op.set_flow_def");
+        } else if (c < 75) {                                    /* a section */
+            size_t n = 3 + vh_below(R, 60);
+            struct uref *u = uref_block_alloc(E.uref_mgr, E.block_mgr, (int)n);
+            uint8_t *w; int ws = -1;
+            uref_block_write(u, 0, &ws, &w);
+            for (size_t b = 0; b < n; b++) w[b] = (uint8_t)vh_below(R, 4);
+            w[1] = (uint8_t)(0xb0 | ((n - 3) >> 8)); w[2] = (uint8_t)(n - 3);
+            uint8_t head[4] = { w[0], n > 1 ? w[1] : 0, n > 2 ? w[2] : 0, n > 3 ? w[3] : 0 };
+            uref_block_unmap(u, 0);
+            uref_attr_set_unsigned(u, seq, UDICT_TYPE_UNSIGNED, "x.seq");
+            struct upipe *target = NULL;
+            if (join) { int k = vh_below(R, SP_MAXSUB); if (subs[k] && sub_flow[k]) target = subs[k]; }
+            else if (super && super_flow) target = super;
+            if (!target) { uref_free(u); continue; }
+            OP("input(seq %" PRIu64 ",%zu)", seq, n);
+            lab_ev(EV_DRIVER, D_INPUT, (int)seq, 0, 0, NULL, "");
+            int first_new = lab_ninputs;
+            upipe_input(target, u, NULL);
+            /* routing / exactly-once oracle */
+            int want[8] = { 0 };
+            if (join) { if (super_out >= 0 && sink_accept[super_out]) want[sink_ids[super_out] & 7] = 1; }
+            else for (int k = 0; k < SP_MAXSUB; k++) {
+                if (!subs[k] || sub_out[k] < 0 || !sink_accept[sub_out[k]]) continue;
+                bool m = (size_t)fsize[k] <= n;
+                for (int b = 0; m && b < fsize[k]; b++) if ((head[b] & mask[k][b]) != filt[k][b]) m = false;
+                if (m) want[sink_ids[sub_out[k]] & 7] = 1;
+            }
+            int got[8] = { 0 };
+            for (int q = first_new; q < lab_ninputs; q++) if (lab_inputs[q].sink >= 0 && lab_inputs[q].sink < 8) { got[lab_inputs[q].sink]++; if (lab_inputs[q].seq != seq) vh_violation_noabort(join ? "c05:ts_psi_join:wrong-buffer" : "c05:ts_psi_split:wrong-buffer", "a sink received seq %" PRIu64 " while %" PRIu64 " was sent", lab_inputs[q].seq, seq); }
+            for (int q = 0; q < 8; q++) if (got[q] != want[q]) { char key[96]; snprintf(key, sizeof(key), "c05:%s:%s", name, got[q] < want[q] ? "buffer-lost" : "buffer-duplicated-or-misrouted");
+                vh_violation_noabort(key, "section seq %" PRIu64 " (%zu octets, table 0x%02x) delivered %d times to sink %d, expected %d", seq, n, head[0], got[q], q, want[q]); }
+            (void)expected;
+            seq++;
+            S.inputs++;
+            VH_COUNT("op.input"); VH_COUNT("c05.deliveries_checked");
+        } else if (c < 82) {                                    /* sink scripting (takes effect at the next negotiation) */
+            int k = vh_below(R, 4);
+            if (sink_user[k] != -1) continue;
+            sink_accept[k] = !vh_chance(R, 1, 3);
+            OP("sink%d accept=%d", k, sink_accept[k]);
+            lab_sink_set_accept(sinks[k], sink_accept[k]);
+        } else if (c < 92) {                                    /* release a sub-pipe */
+            int k = vh_below(R, SP_MAXSUB);
+            if (!subs[k]) continue;
+            OP("sub%d.release", k);
+            lab_ev(EV_DRIVER, D_SUB_RELEASE, k, 0, 0, NULL, "");
+            upipe_release(subs[k]); subs[k] = NULL; sub_flow[k] = false;
+            if (sub_out[k] >= 0) { sink_user[sub_out[k]] = -1; sub_out[k] = -1; }
+            VH_COUNT("op.sub_release");
+        } else if (c < 95 && super) {                           /* the super-pipe goes first: its sub-pipes keep it alive */
+            OP("super.release");
+            lab_ev(EV_DRIVER, D_RELEASE, super_id, 0, 0, NULL, "");
+            upipe_release(super); super = NULL;
+            VH_COUNT("op.super_released_before_subs");
+        }
+    }
+    /* teardown in random order */
+    if (super && vh_chance(R, 1, 2)) { OP("super.release"); lab_ev(EV_DRIVER, D_RELEASE, super_id, 0, 0, NULL, ""); upipe_release(super); super = NULL; }
+    for (int k = 0; k < SP_MAXSUB; k++) if (subs[k]) { OP("sub%d.release(final)", k); upipe_release(subs[k]); subs[k] = NULL; }
+    if (super) { OP("super.release(final)"); lab_ev(EV_DRIVER, D_RELEASE, super_id, 0, 0, NULL, ""); upipe_release(super); super = NULL; }
+    for (int k = 0; k < 4; k++) upipe_release(sinks[k]);
+    mockloop_run(E.upump_mgr, R, 1000, 8);
+    check_c04(&S);
+    lab_probes_release();
+    char key[96];
+    long live = pooltrack_live();
+    if (pooltrack_violations) vh_violation("c01:pool-discipline", "%s (pipe %s)", pooltrack_msg, name);
+    if (live) { snprintf(key, sizeof(key), "c01:%s:objects-still-held", name); vh_violation(key, "%ld pooled objects still held after the super-pipe, its sub-pipes and all handles were released", live); }
+    struct umem_mgr *umem_keep = umem_mgr_use(E.umem);
+    struct cumem_stats *cst = cumem_stats(umem_keep);
+    const char *bad_mgr = lab_env_fini();
+    if (bad_mgr && strcmp(bad_mgr, "umem_mgr")) { snprintf(key, sizeof(key), "c01:%s:manager-still-referenced", name); vh_violation(key, "%s is not back to a single reference", bad_mgr); }
+    if (cst->live) { snprintf(key, sizeof(key), "c01:%s:memory-still-allocated", name); vh_violation(key, "%ld umem blocks still allocated", (long)cst->live); }
+    umem_mgr_release(umem_keep);
+    VH_COUNT("c01.accounted_cases");
+    VH_COUNT("subpipe.cases");
+}
+
 static void run_case(struct vh_rng *r)
 {
     case_hash = 0;
+    if ((mode == MODE_C01 || mode == MODE_C04 || mode == MODE_C05) && only_pipe < 0 && vh_chance(r, 1, 12)) {
+        subpipe_case(r);
+        if (S.inputs >= 3) vh_nontrivial(case_hash);
+        if (vh_want_sample()) vh_sample("%s", vh_trace);
+        return;
+    }
     if (mode == MODE_C12) { c12_case(r); if (vh_want_sample()) vh_sample("%s", vh_trace); return; }
     if (mode == MODE_C14 && only_pipe < 0 && vh_chance(r, 1, 3)) { c14_cutting_case(r); if (vh_want_sample()) vh_sample("%s", vh_trace); return; }
     uint64_t seed = vh_rand(r);
